@@ -173,18 +173,19 @@ class Namer:
         self.n += 1
         return f'{p}{self.n}'
 
-def spell(ty, rng):
+def spell(ty, rng, noconst=False):
     ms = list(rng.choice(SPELLINGS[ty]))
     rng.shuffle(ms)
     if rng.random() < 0.15:
-        ms.insert(rng.randrange(len(ms) + 1), rng.choice(['const', 'volatile']))
+        ms.insert(rng.randrange(len(ms) + 1), 'volatile' if noconst else rng.choice(['const', 'volatile']))
     return ' '.join(ms)
 
-def render(t, name, rng, namer, names):
-    """C declaration of `name` with type t (no trailing ';').  `names` collects, per aggregate node id, the member names."""
+def render(t, name, rng, namer, names, noconst=False):
+    """C declaration of `name` with type t (no trailing ';').  `names` collects, per aggregate node id, the member names.
+    noconst: the member is assigned to by the probe (bit-fields), so no `const`"""
     k = t[0]
     if k == 'p':
-        return f'{spell(t[1], rng)} {name}'.rstrip()
+        return f'{spell(t[1], rng, noconst)} {name}'.rstrip()
     if k == 'e':
         return f'enum {{ {namer.fresh("E")} }} {name}'.rstrip()
     if k == 'ptr':
@@ -214,7 +215,7 @@ def render(t, name, rng, namer, names):
         for (aa, w, nm, mt) in t[3]:
             mname = namer.fresh() if nm else ''
             mnames.append(mname)
-            d = render(mt, mname, rng, namer, names)
+            d = render(mt, mname, rng, namer, names, noconst=w is not None)
             if aa != 0 or (w is None and rng.random() < 0.03):
                 d = f'_Alignas({aa}) ' + d
             if w is not None:
@@ -646,7 +647,7 @@ def gen_cases(ctx):
         if ok_aggregate(t):
             cases.append(('exh3', t))
     # 5. random nested declarations (member sequences to length 8, depth 3, attribute combinations)
-    nrand = 1500 if not ctx.thorough else 30000
+    nrand = 2000 if not ctx.thorough else 30000
     for _ in range(nrand):
         depth = rng.choice([0, 1, 1, 2, 2, 3])
         cases.append(('random', gen_aggregate(rng, depth, rng.randrange(1, 9))))
